@@ -1,11 +1,15 @@
 /- C06 helper lemmas, top level: the format loop against `Iso.isoAux` -/
 import IgrisModel.C06.LemCount
 import IgrisModel.C06.LemConv
+import IgrisModel.C06.LemWrap
+import IgrisModel.C06.LemGrammar
+import IgrisModel.C06.LemRange
+import IgrisModel.C06.LemAlt
 namespace Igris.C06
 open Iso
 
 theorem loop_iso (f : Nat) (fmt : List Char) (args : List Arg) (o : List Char)
-    (h : isoAux igrisPtr true f fmt args = some o)
+    (h : isoAux igrisPtr false f fmt args = some o)
     (g : Nat) (out : List Char) (pc : Int) (hg : fmt.length < g) :
     ∃ pc', loop g fmt args out pc = .done (out ++ o) pc' := by
   induction f generalizing fmt args o g out pc with
@@ -27,7 +31,7 @@ theorem loop_iso (f : Nat) (fmt : List Char) (args : List Arg) (o : List Char)
         rename_i hnul
         split at h
         · rename_i hpct
-          cases ho : isoAux igrisPtr true f cs args with
+          cases ho : isoAux igrisPtr false f cs args with
           | none => simp [ho] at h
           | some o' =>
             simp only [ho, Option.map_some, Option.some.injEq] at h
@@ -47,7 +51,7 @@ theorem loop_iso (f : Nat) (fmt : List Char) (args : List Arg) (o : List Char)
             split at h
             · cases h
             · rename_i e a' hcv
-              cases ho : isoAux igrisPtr true f rest a' with
+              cases ho : isoAux igrisPtr false f rest a' with
               | none => simp [ho] at h
               | some o' =>
                 simp only [ho, Option.map_some, Option.some.injEq] at h
